@@ -186,6 +186,15 @@ func vpEnumerated(which string) [][]any {
 	return out
 }
 
+func allElastic(kinds []string) bool {
+	for _, k := range kinds {
+		if k != "elastic" {
+			return false
+		}
+	}
+	return true
+}
+
 // release-strategy mixes x absence duration around the TTL boundary x record phase x what happens next
 func vpEnumTTL(thorough bool) [][]any {
 	var out [][]any
@@ -215,6 +224,9 @@ func vpEnumTTL(thorough bool) [][]any {
 			var recs, steps []any
 			e := 0
 			for n := 1; n <= 3 && i+n-1 < len(mixes); n++ {
+				if allElastic(mixes[i+n-1]) && v.phase == "Unbind" && v.tail != "gc" && v.tail != "elapse" {
+					continue // an Unbind record without a fixed allocation is not a state the controllers produce
+				}
 				var allocs []any
 				for _, k := range mixes[i+n-1] {
 					e++
@@ -403,7 +415,11 @@ func vpRandom(i int64) []any {
 			var allocs []any
 			for k := 0; k <= r.Intn(2); k++ {
 				e++
-				allocs = append(allocs, vpAlloc(vpAllocKinds[r.Intn(len(vpAllocKinds))], e))
+				kind := vpAllocKinds[r.Intn(len(vpAllocKinds))]
+				if k == 0 && kind == "elastic" { // the code only ever leaves records with a fixed allocation in Unbind
+					kind = "short"
+				}
+				allocs = append(allocs, vpAlloc(kind, e))
 				enis = append(enis, vt.M{"e": e, "tag": "ours", "age": 86400000, "st": "Available", "typ": "Secondary", "inst": 0})
 			}
 			ages := []int{vpTTLShort - 3000, vpTTLShort + 3000, -1, 1000}
